@@ -264,7 +264,7 @@ def run(ctx: Context) -> None:
             pe = iflow.resolve(pexpr)
             if isinstance(pe, ast.Call) and isinstance(pe.func, ast.Name) and pe.func.id == 'list' and len(pe.args) == 1:
                 pe = iflow.resolve(pe.args[0])
-            if isinstance(pe, ast.Call) and callee(ctx, it, pe) == 'emsarray.utils.pairwise' and len(pe.args) == 1:
+            if isinstance(pe, ast.Call) and callee(ctx, it, pe) in ('emsarray.utils.pairwise', 'itertools.pairwise') and len(pe.args) == 1:
                 xc = iflow.canon(pe.args[0])
                 detail = norm_text(iflow.resolve(pe.args[0]))
                 okf = isinstance(fc, tuple) and fc[:3] == ('iter', ENUM, (0,))
